@@ -7,6 +7,7 @@ CONSTANTS
   Threshold = 99
   Depth = 5
   Record = FALSE
+  WithFail = FALSE
   WithCrash = TRUE
   KnownMask = {"C01-removed-while-write-pending", "C10-capacity-lagging-index"}
 INVARIANT NoClauseFalsified
